@@ -175,6 +175,30 @@ chk(
     "inotify_add_watch (other lookups fail for real through the races the history produces).",
 )
 
+chk(
+    "C06", "wdverif/props/c06.py",
+    "hang classifier (stack sampling of caller + library threads) and thread ledger over API call sequences, multi-thread/re-entrant call mixes and directed line holds against the real inotify/polling/scripted observers",
+    "Exploration of call orders and schedules: random and (thorough) all sequences up to length 4 over {schedule(p1|p2|missing), "
+    "unschedule, unschedule_all, rm(root), touch, start (+ retry after a failure), stop, join} per emitter kind, 2-3 threads issuing calls "
+    "concurrently with re-entrant calls from callbacks, and a directed sweep: every library thread parked at every discovered line of "
+    "InotifyBuffer.run / Inotify.read_events / Inotify.close / DelayedQueue.get,close / on_thread_stop / EventDispatcher.stop / "
+    "dispatch_events ... while stop(), unschedule(), root removal or an event proceeds. Violations: a call that does not return with all "
+    "involved threads parked identically in 3 samples (deadlock), a library thread alive after stop()+join(), an undocumented exception.",
+    "Liveness restated as bounded progress + logical stuck-state test; the watchdog alone firing is inconclusive. Real kernel, not a "
+    "simulated one; virtual clock not used here (C08/C17 use it).",
+)
+
+chk(
+    "C12", "wdverif/props/c12.py",
+    "descriptor sanitizer (ledger behind inotify_c's os/select/inotify_* names: open->closed state machine, use-after-close, double close, leak at completed shutdown) + /proc/self/fd and thread deltas + errno injection at every kernel call of watch construction + directed line holds of reader vs closer; strace -f cross-check",
+    "Fault enumeration + schedule sweeps on the real kernel: (a) random schedule/unschedule/start/stop cycles incl. failing calls; (b) a "
+    "failure injected at inotify_init and at each inotify_add_watch of trees of 1-4 (thorough 6) directories x {ENOENT, ENOSPC, EMFILE, "
+    "EACCES} x {idle, running observer} (complete); (c) reader/emitter/dispatcher/closer parked at every discovered line of the read and "
+    "close paths while the other side runs; audited after every shutdown and every failing call.",
+    "Trusted: the ledger proxies (forward to the real kernel). strace is a cross-check only (one child process per run).",
+    category="fault_enumeration",
+)
+
 _PENDING = "check not built yet in this round of work (planned in DESIGN.md section 3); not claimed until its monitor exists"
 _built = {c["id"] for c in CHECKS}
 for n in range(1, 21):
